@@ -81,7 +81,21 @@ def rule_reset(ctx, rid="reset", only=None):
         # checked precondition of the reviewed exception for cpd.pass_count: the budget of newline passes is set in
         # uncrustify_file() itself, in front of the loop that spends it
         u = db.fn("uncrustify_file", file=UNC)
-        sets = [n for n in u.all_nodes() if n["k"] == "asg" and n["op"] == "=" and expr_str(u, n["a"][0]) == "cpd.pass_count" and (u.nodes.get(n["a"][1]) or {}).get("k") == "int"]
+        from ..flow import ReachingDefs as _RD, var_id as _vid
+
+        def _const(i, at, depth=0):
+            x = u.nodes.get(i)
+            while x is not None and x["k"] == "cast":
+                x = u.nodes.get(x["a"][0])
+            if x is None:
+                return False
+            if x["k"] == "int":
+                return True
+            if x["k"] == "ref" and x.get("d") == "lv" and depth < 2:
+                ds = _RD(u, db).at(at, _vid(x))
+                return len(ds) == 1 and ds[0][0] == "decl" and _RD(u, db).rhs_of(ds[0]) is not None and _const(_RD(u, db).rhs_of(ds[0]), ds[0][1]["i"], depth + 1)
+            return False
+        sets = [n for n in u.all_nodes() if n["k"] == "asg" and n["op"] == "=" and expr_str(u, n["a"][0]) == "cpd.pass_count" and _const(n["a"][1], n["i"])]
         uses = [n for n in u.all_nodes() if n["k"] == "un" and n.get("op") in ("--", "++") and expr_str(u, n["a"][0]) == "cpd.pass_count"]
         outside = [g.qn for g, n, st in gs.stores.get("cpd.pass_count", ()) if g.key != u.key]
         r.check(bool(sets) and bool(uses) and all(any(u.dominates(s0["i"], x["i"]) for s0 in sets) for x in uses) and not outside,
